@@ -486,6 +486,78 @@ theorem nopFill_size : ∀ (n lo hi : Nat) (tape t' : Array UInt64), hi - lo ≤
     · rw [nopFill_ge _ _ _ hlt] at h
       cases h; rfl
 
+/-- packing of tape words, arithmetically (copied from `DeleteDoc`, which is not imported here) -/
+theorem mkWord_toNat (t : UInt8) (v : UInt64) (h : v.toNat < 2^56) : (mkWord t v).toNat = t.toNat * 2^56 + v.toNat := by
+  unfold mkWord
+  have ht := t.toNat_lt
+  simp only [UInt64.toNat_or, UInt64.toNat_shiftLeft, UInt8.toNat_toUInt64]
+  have e1 : (56 : UInt64).toNat % 64 = 56 := by decide
+  rw [e1, Nat.shiftLeft_eq, Nat.mod_eq_of_lt (by omega), ← Nat.shiftLeft_eq]
+  exact (Nat.shiftLeft_add_eq_or_of_lt h _).symm
+
+theorem tagOf_mkWord_small (t : UInt8) (v : UInt64) (h : v.toNat < 2^56) : tagOf (mkWord t v) = t := by
+  apply UInt8.toNat_inj.mp
+  unfold tagOf
+  have ht := t.toNat_lt
+  simp only [UInt64.toNat_toUInt8, UInt64.toNat_shiftRight, mkWord_toNat t v h]
+  have e1 : (56 : UInt64).toNat % 64 = 56 := by decide
+  rw [e1, Nat.shiftRight_eq_div_pow]
+  omega
+
+/-- what the fill leaves on the tape: old words, and NOP words in `[lo, hi)` -/
+theorem nopFill_get : ∀ (n lo hi : Nat) (tape t' : Array UInt64), hi - lo ≤ n → Iter.nopFill tape lo hi = .ok t' →
+    ∀ k, t'[k]? = tape[k]? ∨ (lo ≤ k ∧ k < hi ∧ t'[k]? = some (mkWord tagNop (UInt64.ofNat (hi - k)))) := by
+  intro n
+  induction n with
+  | zero =>
+    intro lo hi tape t' h1 h k
+    rw [nopFill_ge _ _ _ (by omega)] at h
+    cases h; exact Or.inl rfl
+  | succ n ih =>
+    intro lo hi tape t' h1 h k
+    by_cases hlt : lo < hi
+    · rw [nopFill_lt _ _ _ hlt] at h
+      by_cases hs : lo < tape.size
+      · rw [wr_ok _ _ _ hs] at h
+        simp only [Res.bind_ok] at h
+        rcases ih _ _ _ _ (by omega) h k with hk | ⟨a, b, c⟩
+        · by_cases hkl : k = lo
+          · subst hkl
+            refine Or.inr ⟨Nat.le_refl _, hlt, ?_⟩
+            rw [hk]; simp [hs]
+          · refine Or.inl ?_
+            rw [hk, Array.getElem?_set_ne]
+            exact fun hh => hkl hh.symm
+        · exact Or.inr ⟨by omega, b, c⟩
+      · rw [wr_panic _ _ _ (by omega)] at h; cases h
+    · rw [nopFill_ge _ _ _ hlt] at h
+      cases h; exact Or.inl rfl
+
+/-! ## a static condition under which every element ends inside the view -/
+
+/-- every live word of the view `[0, lim)` that starts an element ends it inside the view: `k + 2 ≤ lim` for the
+    two-word scalars, payload `≤ lim` for the container openers (what `calcNext` computes) -/
+def EndsInside (lim : Nat) (tape : Array UInt64) : Prop :=
+  ∀ k w, k < lim → tape[k]? = some w → tagOf w ≠ tagNop →
+    ((k + 1 : Nat) : Int) +
+      (Iter.calcNext { lim := lim, off := k + 1, addNext := 0, cur := payloadOf w, t := tagOf w } false).addNext ≤ lim
+
+/-- deleting (NOP-filling) a range of a tape shorter than 2^56 words keeps the condition -/
+theorem EndsInside.fill {lim : Nat} {tape t' : Array UInt64} {lo hi : Nat} (h : EndsInside lim tape)
+    (hf : Iter.nopFill tape lo hi = .ok t') (hh : hi < 2^56) : EndsInside lim t' := by
+  intro k w hk hw hn
+  rcases nopFill_get _ _ _ _ _ (Nat.le_refl _) hf k with hk' | ⟨a, b, c⟩
+  · exact h k w hk (by rw [← hk', hw]) hn
+  · exfalso
+    rw [hw] at c
+    simp only [Option.some.injEq] at c
+    apply hn
+    rw [c]
+    apply tagOf_mkWord_small
+    have : hi - k < 2^56 := by omega
+    simp only [UInt64.toNat_ofNat']
+    omega
+
 /-! ## the model's `advance`: every live step moves the cursor forward -/
 
 theorem advanceLoop_facts (pj : PJ) : ∀ (n : Nat) (i : Iter) (off : Nat), i.lim - off ≤ n →
@@ -677,5 +749,96 @@ theorem exec1_cbq_i (e : Env) (tape : Array UInt64) (fuel : Nat) (i : Iter) (r :
   obtain ⟨g1, g2, g3, g4, g5⟩ := iterAt_get_i _ _ hI
   simp [g1, g2, g3, g4, g5, hR, valToInt, logOf, encIter]
   rfl
+
+/-! ## `Object.ForEach` / `Object.DeleteElems`: the pieces of the loop body, on any store -/
+
+theorem iterAt_get_tmp (e : Env) (i : Iter) (h : iterAt e "tmp" = some i) :
+    e.get "tmp.off" = some (.int i.off) ∧ e.get "tmp.addNext" = some (.int i.addNext) ∧
+    e.get "tmp.cur" = some (.u64 i.cur) ∧ e.get "tmp.t" = some (.u8 i.t) ∧ e.get "tmp.lim" = some (.int i.lim) :=
+  iterAt_get e "tmp" i h
+
+/-- what the log records of a callback `fn(name, tmp)`: the length of the name, then the iterator -/
+def encNI (p : Bytes × Iter) : List Int := (p.1.size : Int) :: encIter p.2
+
+def cbLogsTmp : List Expr :=
+  [.v "name", .v "tmp.off", .v "tmp.addNext", .v "tmp.cur", .v "tmp.t", .v "tmp.lim"]
+
+theorem exec1_cb_tmp (e : Env) (tape : Array UInt64) (fuel : Nat) (i : Iter) (name : Bytes)
+    (hI : iterAt e "tmp" = some i) (hn : e.get "name" = some (.bytes name)) :
+    exec1 goFuns fuel (.cb "_" "fn" cbLogsTmp) ⟨e, tape⟩ =
+      .normal ⟨e.set "fn.log" (.ints (logOf e ++ encNI (name, i))), tape⟩ := by
+  obtain ⟨g1, g2, g3, g4, g5⟩ := iterAt_get_tmp _ _ hI
+  simp [cbLogsTmp, g1, g2, g3, g4, g5, hn, valToInt, logOf, encIter, encNI]
+  rfl
+
+theorem exec1_cbq_tmp (e : Env) (tape : Array UInt64) (fuel : Nat) (i : Iter) (name : Bytes) (r : Bool)
+    (rest : List Bool) (hI : iterAt e "tmp" = some i) (hn : e.get "name" = some (.bytes name))
+    (hR : e.get "fn.results" = some (.bools (r :: rest))) :
+    exec1 goFuns fuel (.cb "#fn" "fn" cbLogsTmp) ⟨e, tape⟩ =
+      .normal ⟨((e.set "fn.log" (.ints (logOf e ++ encNI (name, i)))).set "fn.results" (.bools rest)).set "#fn"
+        (.bool r), tape⟩ := by
+  obtain ⟨g1, g2, g3, g4, g5⟩ := iterAt_get_tmp _ _ hI
+  simp [cbLogsTmp, g1, g2, g3, g4, g5, hn, hR, valToInt, logOf, encIter, encNI]
+  rfl
+
+/-- `typ := tmp.Advance(); if typ != TypeString || tmp.off+1 >= len(tmp.tape.Tape) { … return }` -/
+def objHeadA : List Stmt := [
+  .callAssign ["typ"] "tmp" "Iter.Advance" [] [],
+  .ite (.lor (.bin .ne (.v "typ") (.u8 2 /- TypeString -/)) (.bin .ge (.bin .add (.v "tmp.off") (.int 1)) (.lenTape "tmp"))) [
+    .ite (.bin .eq (.v "typ") (.u8 0 /- TypeNone -/)) [
+      .ret [(.bool false /- nil -/)]] [],
+    .ret [(.bool true)]] []]
+
+theorem objHeadA_run (pj : PJ) (e : Env) (tmp : Iter) (f : Nat) (rest : List Stmt) (inv : ItInv pj "tmp" tmp e)
+    (hl : tmp.lim ≤ pj.tape.size) (hf : tmp.lim + 3 ≤ f) :
+    match tmp.advance pj with
+    | .ok (tmp1, typ) =>
+      exec goFuns (f + 1) (objHeadA ++ rest) ⟨e, pj.tape⟩ =
+        if typ ≠ typeString ∨ tmp1.off + 1 ≥ tmp1.lim then
+          .ret ⟨(advEnv e "tmp" tmp1 pj).set "typ" (.u8 typ), pj.tape⟩ [.bool (!(typ == typeNone))]
+        else exec goFuns (f + 1) rest ⟨(advEnv e "tmp" tmp1 pj).set "typ" (.u8 typ), pj.tape⟩
+    | .panic => exec goFuns (f + 1) (objHeadA ++ rest) ⟨e, pj.tape⟩ = .panic
+    | _ => False := by
+  have hA := exec1_advance pj ⟨e, pj.tape⟩ "typ" "tmp" rfl tmp f hl rfl inv hf
+  revert hA
+  cases tmp.advance pj with
+  | ok r =>
+    obtain ⟨tmp1, typ⟩ := r
+    intro hA
+    simp only [] at hA ⊢
+    have inv1 : ItInv pj "tmp" tmp1 ((advEnv e "tmp" tmp1 pj).set "typ" (.u8 typ)) :=
+      (inv.adv tmp1 (by decide) (by decide) (by decide)).set _ _ (by decide)
+    obtain ⟨g1, g2, g3, g4, g5⟩ := iterAt_get_tmp _ _ inv1.it
+    simp only [objHeadA, List.cons_append, List.nil_append]
+    rw [exec, hA]
+    simp only []
+    rw [exec]
+    by_cases h1 : typ = typeString
+    · have hb1 : (typ != 2) = false := by simp [h1, typeString]
+      by_cases h2 : tmp1.off + 1 ≥ tmp1.lim
+      · have h2' : (tmp1.lim : Int) ≤ tmp1.off + 1 := by omega
+        have hn : (typ == typeNone) = false := by rw [h1]; decide
+        have hn' : (typ == 0) = false := by rw [h1]; decide
+        simp [h1, h2, h2', hb1, hn, hn', g1, g5, -exec]
+        simp [typeString]
+      · have h2' : ¬ (tmp1.lim : Int) ≤ tmp1.off + 1 := by omega
+        simp [h1, h2, h2', hb1, g1, g5, -exec]
+        simp only [typeString]
+        generalize exec goFuns (f + 1) rest _ = out
+        cases out <;> rfl
+    · have hb1 : (typ != 2) = true := by simpa [typeString] using h1
+      by_cases hn : typ = typeNone
+      · subst hn
+        simp [h1, hb1, typeNone, -exec]
+      · have hn' : (typ == 0) = false := by simpa [typeNone] using hn
+        have hn'' : (typ == typeNone) = false := by simpa using hn
+        simp [h1, hb1, hn, hn', hn'', -exec]
+  | panic =>
+    intro hA
+    simp only [] at hA ⊢
+    simp only [objHeadA, List.cons_append, List.nil_append]
+    rw [exec, hA]
+  | error _ => exact fun h => h
+  | diverge => exact fun h => h
 
 end SJ.GoDelete
